@@ -67,7 +67,7 @@ func c15Create(r *Run) {
 			case 1:
 				// plain names, and names that contain something shaped like a UUID
 				kinds[j], ms[j].ID = "named", []string{fmt.Sprintf("nm%d", j), fmt.Sprintf("port-%s", mkUUID(40+j)), mkUUID(50+j) + "-a", fmt.Sprintf("x%sy", mkUUID(60+j)),
-					fmt.Sprintf("port_of_vm_0123456789_0123456789_a%02d", j)}[rng.Intn(5)] // (the last one: 36 characters, as a UUID has)
+					fmt.Sprintf("port_of_vm_0123456789_0123456789_a%02d", j), fmt.Sprintf("Bridge_%d_UpperCase", j)}[rng.Intn(6)] // (the last one: 36 characters, as a UUID has)
 			default:
 				kinds[j], ms[j].ID = "explicit", mkUUID(100000+serial)
 			}
